@@ -101,3 +101,31 @@ old="    vrs = {c: (0, c_max)}\n    aut.declare_variables(**vrs)\n"
 assert old in s
 open(p,'w').write(s.replace(old,"    aut.declare_variables(**{c: (0, c_max)})\n",1))
 PY
+run "_nodevar_dom: range from the sorted node list" "C20" <<'PY'
+import sys
+p=sys.argv[1]+'/omega/symbolic/logicizer.py'; s=open(p).read()
+old="    return (min(g), max(g))\n"
+assert old in s
+open(p,'w').write(s.replace(old,"    nodes = sorted(g)\n    return (nodes[0], nodes[-1])\n",1))
+PY
+run "translate: testers sorted also without debug" "C15" <<'PY'
+import sys
+p=sys.argv[1]+'/omega/logic/past.py'; s=open(p).read()
+old="        ci = (d['init'] for d in testers.values())\n        ct = (d['trans'] for d in testers.values())\n"
+assert old in s
+open(p,'w').write(s.replace(old,"        ci = sorted(d['init'] for d in testers.values())\n        ct = sorted(d['trans'] for d in testers.values())\n",1))
+PY
+run "count: care variables made a set first" "C07" <<'PY'
+import sys
+p=sys.argv[1]+'/omega/symbolic/fol.py'; s=open(p).read()
+old="        bits = _refine_vars(care_vars, self.vars)\n"
+assert old in s
+open(p,'w').write(s.replace(old,"        bits = _refine_vars(set(care_vars), self.vars)\n",1))
+PY
+run "collect_functions: explicit loop" "C14" <<'PY'
+import sys
+p=sys.argv[1]+'/omega/symbolic/functions.py'; s=open(p).read()
+old="    r.update(\n        (var, d['function'])\n        for var, d in functions.items())\n"
+assert old in s
+open(p,'w').write(s.replace(old,"    for var, d in functions.items():\n        r[var] = d['function']\n",1))
+PY
